@@ -314,9 +314,13 @@ def strategy(ctx):
     # "peer": upstream is a real TLS server and mitmproxy's own ServerTLSLayer completes the upstream handshake first
     # (eager strategy), so Server.alpn is whatever the layer stored; "assigned": the harness opens the server connection
     # and assigns the negotiated protocol (also reaches protocols the client did not offer = addon-chosen upstream offers)
-    return st.tuples(st.lists(st.sampled_from(PROTOS), max_size=4, unique=True),
-                     st.sampled_from(UPSTREAM + [b"", b"", b"h2", b"http/1.1"]), st.booleans(), st.sampled_from(SHAPES),
-                     st.sampled_from([0, 0, 0, 1, 2, 3, 4, 5, 6]), st.sampled_from(["peer", "peer", "assigned"]))
+    # offer lists: arbitrary ones, plus the short lists that the http2 / http3 options can filter down to nothing
+    offers = st.one_of(st.lists(st.sampled_from(PROTOS), max_size=4, unique=True),
+                       st.sampled_from([[b"h2"], [b"h2"], [b"h3"], [b"h2", b"h3"], [b"h3", b"h2"], [b"h2", b"qux"],
+                                        [b"http/1.1"], [b"h2", b"http/1.1"]]))
+    return st.tuples(offers, st.sampled_from(UPSTREAM + [b"", b"", b"h2", b"h2", b"http/1.1", b"h3"]), st.booleans(),
+                     st.sampled_from(SHAPES), st.sampled_from([0, 0, 0, 1, 2, 3, 4, 5, 6]),
+                     st.sampled_from(["peer", "peer", "assigned"]), st.booleans())
 
 
 def check_case(case, ctx):
@@ -333,10 +337,12 @@ def check_case(case, ctx):
 
     offers, upstream, http2, shape, outer_i = case[:5]
     how = case[5] if len(case) > 5 else "assigned"
+    http3 = case[6] if len(case) > 6 else True
     tctx, ta, nl = stack_env()
     # the upstream protocol is "known" when the server connection exists and has finished its TLS handshake before the
     # client handshake starts (eager strategy); "unknown" = no server connection yet (lazy strategy)
-    tctx.options.update(http2=http2, connection_strategy="lazy" if upstream is None else "eager", ssl_insecure=True)
+    tctx.options.update(http2=http2, http3=http3, connection_strategy="lazy" if upstream is None else "eager",
+                        ssl_insecure=True)
     client = connection.Client(peername=("192.0.2.7", 51000), sockname=("192.0.2.1", 8080), timestamp_start=1.0,
                                state=ConnectionState.OPEN, proxy_mode=ProxyMode.parse(MODE_OF[shape]))
     c = context.Context(client, tctx.options)
@@ -426,9 +432,17 @@ def check_case(case, ctx):
         raise HarnessError("upstream protocol was not installed on the server connection")
     if (client.alpn or None) != sel:
         ctx.fail("e2e:client-alpn-attribute", "client negotiated %r but Client.alpn=%r" % (sel, client.alpn))
-    judge(ctx, offers, upstream, False, http2, sel, "")
+    # buckets of the peer mode get their own prefix: there the upstream offers are mitmproxy's own, so a failure has
+    # another cause than in the "assigned" mode (where the upstream protocol may be one an addon chose)
+    judge(ctx, offers, upstream, False, http2, sel, "peer:" if how == "peer" else "")
+    if how == "peer" and not http2:
+        for srv in drv.servers:
+            if b"h2" in (srv.alpn_offers or ()):
+                ctx.fail("peer:h2-offered-upstream-although-disabled",
+                         "client offers %r, http2 disabled: mitmproxy offered %r to the upstream server"
+                         % (offers, list(srv.alpn_offers)))
     if offers:
-        ctx.nt(("e2e", tuple(offers), upstream, http2, shape, outer_i if shape == "swp" else 0, how))
+        ctx.nt(("e2e", tuple(offers), upstream, http2, http3, shape, outer_i if shape == "swp" else 0, how))
     ctx.cls("stack %s: %s" % (shape, "none" if sel is None else "upstream" if sel == upstream else sel.decode()))
 
 
